@@ -241,3 +241,44 @@ func ZZC01Init() {
 	}
 	CheckExact(res.Diags, exp, "C01 package-level initialisers")
 }
+
+const c01SrcShadow = `package d
+
+//«annT»
+type T struct {
+	f int
+}
+
+func (t *T) Shadow(o T) {
+	{
+		t := new(int)
+		*t = 7 // SITE-SHADOW
+		*t++ // SITE-SHADOWINC
+	}
+	func(t *T) {
+		*t = o // SITE-PARAM-NOT-RECEIVER
+	}(nil)
+	*t = o // SITE-RECEIVER
+}
+`
+
+// ZZC01Shadow: only the receiver itself counts for "overwrites / increments the pointer receiver".
+func ZZC01Shadow() {
+	annT := nd.EnumPad("annT", " @immutable", " plain")
+	holes := []nd.Hole{{"annT", annT}}
+	prog := nd.LoadProgram([]nd.File{{Pkg: "zzmod/d", Name: "d.go", Src: c01SrcShadow}}, holes)
+	res := Analyze(prog, config.Default(), "zzmod/d", Facts{}, "imm")
+	imm := nd.HasPrefix(annT, " @immutable")
+	nd.Known("C01/receiver-name-shadow", imm)
+	// SITE-PARAM-NOT-RECEIVER: '*t = o' through a closure parameter of type *T is not a field write and not the receiver:
+	// the property does not list it, the oracle leaves it open (don't-care) by dropping that line
+	var kept []Diag
+	for _, d := range res.Diags {
+		if d.Line != nd.LineOf(c01SrcShadow, "SITE-PARAM-NOT-RECEIVER") {
+			kept = append(kept, d)
+		}
+	}
+	CheckExact(kept, []Expect{
+		{"/zz/zzmod/d/d.go", nd.LineOf(c01SrcShadow, "SITE-RECEIVER"), "IMM01", imm},
+	}, "C01 receiver shadowing")
+}
